@@ -339,6 +339,17 @@ pub fn run(rep: &mut Report) {
         v
     };
     sweep(rep, "c02.std", stds.len() as u64, |i, out| j_std(stds[i as usize].0, stds[i as usize].1, out));
+    // order independence: conversions of counts whose 64-bit halves fold onto each other, far-range counts, far-range unit
+    // products, in every order
+    {
+        let mut ov: Vec<i128> = vec![-1, (1 << 48) - 1, -5, (1 << 48) - 5, 1 << 48, 1 << 64, 5, (1 << 64) + (1 << 48) + 5, 0, NPC, -NPC];
+        for k in 3..=12i128 {
+            ov.push(k * NPC + 17 * k);
+        }
+        let ou: [(i64, Unit); 6] = [(146_101, Unit::Day), (4_383_007, Unit::Hour), (7, Unit::Century), (-9, Unit::Century), (15_251, Unit::Week), (1, Unit::Second)];
+        let nv = ov.len() as u64;
+        crate::engine::order_pairs(rep, "c02.order", nv + 6, |i, out| if i < nv { j_from_total(ov[i as usize], out) } else { j_unit((i % 3) as usize, ou[(i - nv) as usize].0, ou[(i - nv) as usize].1, out) });
+    }
 }
 
 pub fn replay(check: &str, a: &[String], out: &mut Local) -> bool {
